@@ -325,7 +325,9 @@ class Sem:
             lets.append((st_.targets[0].id, st_.value))
         if lets:
             names_ = [n_ for n_, _ in lets]
-            stored = [n_.id for st_ in body for n_ in ast.walk(st_) if isinstance(n_, ast.Name) and isinstance(n_.ctx, (ast.Store, ast.Del))]
+            comp_bound = {id(n_) for st_ in body for c_ in ast.walk(st_) if isinstance(c_, (ast.ListComp, ast.GeneratorExp, ast.SetComp, ast.DictComp))
+                          for g_ in c_.generators for n_ in ast.walk(g_.target)}
+            stored = [n_.id for st_ in body for n_ in ast.walk(st_) if isinstance(n_, ast.Name) and isinstance(n_.ctx, (ast.Store, ast.Del)) and id(n_) not in comp_bound]
             mutated_ = {b_.id for st_ in body for n_ in ast.walk(st_) if isinstance(n_, ast.Subscript) and isinstance(n_.ctx, (ast.Store, ast.Del))
                         for b_ in [n_.value] if isinstance(b_, ast.Name)}
             calls_mut = {c_.func.value.id for st_ in body for c_ in ast.walk(st_) if isinstance(c_, ast.Call) and isinstance(c_.func, ast.Attribute)
